@@ -592,7 +592,16 @@ class Ovld:
     def unregister(self, fn):
         """Unregister a function."""
         self._attempt_modify()
-        self._defns = {sig: f for sig, f in self._defns.items() if f is not fn}
+        defns = {}
+        for sig, f in self._defns.items():
+            if f is not fn:
+                # Methods that were pushed down by the one we remove move
+                # back up, as if it had never been registered.
+                sig = replace(sig, tiebreak=0)
+                while sig in defns:
+                    sig = replace(sig, tiebreak=sig.tiebreak - 1)
+                defns[sig] = f
+        self._defns = defns
         self._update()
 
     def _update(self):
